@@ -32,6 +32,7 @@ KcutClauses(c, kc) ==
   \cup (IF \E j \in 1..Len(kc.cuts) : SetOf(kc.cuts[j]) = {kc.n} THEN {} ELSE {"kcut_trivial_cut_missing" \o tag})
 
 Judge_graph(e) ==
+  IF e.exc # "" THEN {"query_raised:" \o e.exc} ELSE        \* no query may raise on these graphs (depth queries on cyclic graphs are recorded as -1)
   LET c == e.c
       cyc == Cyclic(c)
   IN (IF WellFormedRec(c) THEN {} ELSE {"MACHINERY:malformed_record"})
